@@ -493,7 +493,8 @@ def runLines (cfg : Config) : St → List LineIn → Option (List OutLine)
       | none => none
       | some os => some (o :: os)
 
-/-! ## Post passes (compared with the implementation on every run; not part of the proofs) -/
+/-! ## Post passes (compared with the implementation on every run; proved: they leave verbatim lines alone,
+`c15_verbatim_document`; that they only insert white space elsewhere is tested, not proved) -/
 
 /-- Insert `n` spaces at byte index `i`. -/
 def padAt (line : Text) (i n : Nat) : Text :=
